@@ -1,7 +1,7 @@
 (* Property C07 -- OpenADAS rates reproduce stored tables and honour range / missing-data policy.
    Nothing but the property theorems, each closed by a lemma of Proofs/, with Print Assumptions.
 
-   Two groups.
+   Groups.
    (P) Policy of the 14 accessors of cherab/openadas/openadas.py over the complete finite domain of
        accessor x 3 flags x element/isotope per species x repository content.  The theorems speak
        about ANY table of outcomes that passes the boolean check [wf_on]; the table probed from the
@@ -10,13 +10,16 @@
        all arguments.  log10, 10**, and raysect's interpolators are oracles; theorems whose name ends
        in _partial rest on the oracle laws [oracle_laws] (10**log10 v = v, 10**(a+b) = 10**a 10**b,
        10**a >= 0, every interpolator returns the stored value at a knot).  What is missing for a
-       full proof: that raysect's cubic interpolators and libm satisfy these laws (up to rounding);
-       this is checked numerically at every grid point on every run, not proved.  Finiteness of an
-       extrapolated DOUBLE is likewise only checked on the implementation (a value in Q is finite
-       by construction). *)
+       full proof: that raysect's 2-D / 3-D cubic interpolators and libm satisfy these laws (up to
+       rounding); this is checked numerically at every grid point on every run, not proved.  The 1-D
+       interpolator IS modelled and proved (group C below), which removes the interpolation
+       hypotheses from the beam-CX clause and from the beam clauses with a single-point e or n axis.
+       Finiteness of an extrapolated DOUBLE is likewise only checked on the implementation (a value
+       in Q is finite by construction).
+   (C) raysect's 1-D cubic interpolation in Gallina, through-knots theorem, fast evaluator. *)
 Require Import Cherab.Common.Qx.
-Require Import Cherab.Model.C07_Policy Cherab.Model.C07_Rates Cherab.Model.C07_Check.
-Require Import Cherab.Proofs.C07_Policy Cherab.Proofs.C07_Rates Cherab.Proofs.C07_Check.
+Require Import Cherab.Model.C07_Policy Cherab.Model.C07_Rates Cherab.Model.C07_Check Cherab.Model.C07_Cubic.
+Require Import Cherab.Proofs.C07_Policy Cherab.Proofs.C07_Rates Cherab.Proofs.C07_Check Cherab.Proofs.C07_Cubic.
 From Coq Require Import Qabs.
 Open Scope Q_scope.
 
@@ -228,6 +231,74 @@ Print Assumptions C07_exec_instance_lawful.
 Theorem C07_checked_axis_is_axis : forall xs, axisb xs = true -> axis xs.
 Proof. exact axisb_axis. Qed.
 Print Assumptions C07_checked_axis_is_axis.
+
+(* ---------------------------------------------------------------------------------- (C) cubic *)
+(* raysect's 1-D cubic interpolant (Model/C07_Cubic.v: find_index, unequal-spacing derivative estimates,
+   Hermite coefficients, evaluation in the normalised cell) returns the stored value at EVERY knot, for
+   every number of knots >= 2, every strictly increasing knot vector and every value vector.  This was
+   the 1-D part of the oracle law 'interpolant passes through knots'; it is now a theorem. *)
+Theorem C07_cubic1d_through_knots :
+  forall n k v i, (2 <= n)%nat -> increasingq n k -> (i < n)%nat -> cubic1 n k v (k i) == v i.
+Proof. exact cubic1_knot. Qed.
+Print Assumptions C07_cubic1d_through_knots.
+
+(* hence: with raysect's cubic in both 1-D slots, oracle_laws needs only the log10 / 10** laws and the
+   2-D / 3-D knot laws (what remains unproved: bicubic / tricubic through knots, and libm) *)
+Theorem C07_oracle_laws_from_cubic1d :
+  forall lg ex ladd interp2 interp3, log_laws lg ex ladd ->
+  (forall nx ny kx ky v i j, distinct ex nx kx -> distinct ex ny ky -> (i < nx)%nat -> (j < ny)%nat ->
+     ex (interp2 nx ny kx ky v (kx i) (ky j)) == ex (v i j)) ->
+  (forall nx ny nz kx ky kz v i j k, distinct ex nx kx -> distinct ex ny ky -> distinct ex nz kz ->
+     (i < nx)%nat -> (j < ny)%nat -> (k < nz)%nat ->
+     ex (interp3 nx ny nz kx ky kz v (kx i) (ky j) (kz k)) == ex (v i j k)) ->
+  oracle_laws Q lg ex ladd cubic1 interp2 interp3 cubic1.
+Proof. exact oracle_laws_cubic1. Qed.
+Print Assumptions C07_oracle_laws_from_cubic1d.
+
+(* BeamCXPEC interpolates in 1-D only: its grid-point clause (hc/lambda q_eb q_ti q_ni q_z q_b / q_ref^4,
+   all axis lengths >= 1) no longer assumes anything about an interpolator -- only log_laws (10**log10 v = v
+   for v > 0, 10**a >= 0, 10** respects ==, log10 strictly increasing) *)
+Theorem C07_beam_cx_node_cubic :
+  forall lg ex ladd, log_laws lg ex ladd ->
+  forall cf wl ext ebs tis nis zs bs qeb qti qni qz qb qref i j k l m,
+  0 < cf -> 0 < wl -> 0 < qref ->
+  axis ebs -> axis tis -> axis nis -> axis zs -> axis bs ->
+  (i < length ebs)%nat -> (j < length tis)%nat -> (k < length nis)%nat -> (l < length zs)%nat -> (m < length bs)%nat ->
+  0 < nth i qeb 0 -> 0 < nth j qti 0 -> 0 < nth k qni 0 -> 0 < nth l qz 0 -> 0 < nth m qb 0 ->
+  same (evalcx Q lg ex cubic1 cubic1 (conv true cf wl) ext ebs tis nis zs bs qeb qti qni qz qb qref
+               (nth i ebs 0) (nth j tis 0) (nth k nis 0) (nth l zs 0) (nth m bs 0))
+       (Val (photon_to_j cf wl (nth i qeb 0 * nth j qti 0 * nth k qni 0 * nth l qz 0 * nth m qb 0
+                                / (qref * qref * qref * qref)))).
+Proof. exact evalcx_node_cubic. Qed.
+Print Assumptions C07_beam_cx_node_cubic.
+
+(* beam stopping / population / emission tables with a single-point energy or density axis interpolate in
+   1-D only (IsoMapper2D / Constant2D branches): sen * st / sref under log_laws alone, any interp2 *)
+Theorem C07_beam_node_single_axis_cubic :
+  forall lg ex ladd, log_laws lg ex ladd ->
+  forall interp2 p cf wl ext es ns ts sen st sref i j k, 0 < cf -> 0 < wl -> 0 < sref ->
+  single es || single ns = true ->
+  axis es -> axis ns -> axis ts -> (i < length es)%nat -> (j < length ns)%nat -> (k < length ts)%nat ->
+  0 < at2 sen i j -> 0 < nth k st 0 ->
+  same (evalbeam Q lg ex ladd cubic1 interp2 (conv p cf wl) ext es ns ts sen st sref
+                 (nth i es 0) (nth j ns 0) (nth k ts 0))
+       (Val (conv p cf wl (at2 sen i j * nth k st 0 / sref))).
+Proof. exact evalbeam_node_cubic_single. Qed.
+Print Assumptions C07_beam_node_single_axis_cubic.
+
+(* the evaluator with reduced fractions that the correspondence runs inside Coq is the model *)
+Theorem C07_cubic1d_fast_evaluator : forall n k v x, cubic1_r n k v x == cubic1 n k v x.
+Proof. exact cubic1_r_eq. Qed.
+Print Assumptions C07_cubic1d_fast_evaluator.
+
+Theorem C07_log_laws_satisfiable : log_laws (fun v => v) Qabs Qmult.
+Proof. exact log_laws_witness. Qed.
+Print Assumptions C07_log_laws_satisfiable.
+
+(* the null rates returned for missing data are zero everywhere *)
+Theorem C07_null_zero_everywhere : forall args, evalnull_at args = Val 0.
+Proof. intros; reflexivity. Qed.
+Print Assumptions C07_null_zero_everywhere.
 
 (* non-vacuity: a concrete 2x3 table, axes and node meeting every hypothesis of C07_rate2_node_partial,
    and a policy case in the domain *)
